@@ -119,7 +119,7 @@ func cmdWorker(args []string) int {
 		fmt.Fprintln(os.Stderr, "unknown scenario", in.Scenario)
 		return 2
 	}
-	runtime.GOMAXPROCS(2)
+	runtime.GOMAXPROCS(1) // one P: faster hand-offs and deterministic sync.Pool behaviour
 	sc := f(in.Params)
 	sc.Bound = in.Bound
 	e := &vrt.Explorer{Sc: sc, Shard: *shard, Shards: *shards, MaxExec: in.MaxExec}
@@ -339,7 +339,7 @@ func cmdCheck(args []string) int {
 				ib, _ := json.Marshal(j.inst)
 				cmd := exec.Command(self, "worker", "-instance", string(ib), "-shard", strconv.Itoa(j.shard),
 					"-shards", strconv.Itoa(j.inst.Shards), "-seconds", strconv.Itoa(j.inst.Seconds))
-				cmd.Env = append(os.Environ(), "GOMAXPROCS=2")
+				cmd.Env = append(os.Environ(), "GOMAXPROCS=1")
 				var out, errb bytes.Buffer
 				cmd.Stdout, cmd.Stderr = &out, &errb
 				if err := cmd.Run(); err != nil {
